@@ -18,12 +18,26 @@ from pathlib import Path
 
 from mc import fastamodel as fm
 from mc.engine import Check, h64
-from mc.vfs import ROOT, VFS, Killed, reset_library_caches
+from mc.vfs import LINK_MARK, ROOT, VFS, Killed, reset_library_caches
 from tola.fasta.index import FastaIndex
 
 FA = ROOT + "/g.fa"
 FAI = FA + ".fai"
 AGP = FA + ".agp"
+REAL = ROOT + "/store/x.fa"  # where the bytes live when g.fa is a symbolic link (staged input of a pipeline)
+
+
+def fa_real(snap):
+    """path of the entry holding the FASTA bytes: FA itself, or the target if FA is a symbolic link"""
+    for p, d, _ in snap:
+        if p == FA:
+            return d[len(LINK_MARK) :].decode() if d.startswith(LINK_MARK) else FA
+    raise KeyError(FA)
+
+
+def fa_entry(snap):
+    real = fa_real(snap)
+    return next((d, m) for p, d, m in snap if p == real)
 
 CONTENTS = {
     "A": [("r1", b"ACGTNNACGT", 4), ("r2", b"GGnnA", 5)],
@@ -125,7 +139,7 @@ def canon(snap, now, keep_others):
     rank = {v: i for i, v in enumerate(vals)}
     items = []
     for p in sorted(files):
-        if p in (FA, FAI, AGP) or keep_others:
+        if p in (FA, FAI, AGP, REAL) or keep_others:
             d, m = files[p]
             items.append((p, d, rank[m]))
     past = now > max((m for _, m in files.values()), default=0)
@@ -145,7 +159,7 @@ class C15(Check):
     rule = (
         "E2p: every history of <= 5 (7) operations replayed inside one process, in-memory state of the library kept between its loads (each load of E2 and each run of E3 starts from a fresh library state). E2: states = (FASTA content in {A,B,C}, .fai/.agp bytes or absent, order relation of the three mtimes and the clock); transitions = tick, "
         "rewrite(X != current, mtime = now), rm .fai, rm .agp, load, load crashed before its k-th file operation for every k; BFS to fixpoint, for stream "
-        "buffer sizes {16, 1} and one 8192-buffer run on a cache > 8 KiB. Invariant after every load: raised, or index and assembly == reference of the "
+        "buffer sizes {16, 1}, one 8192-buffer run on a cache > 8 KiB, and one run (contents {A,B}) in which the FASTA path is a symbolic link made once and the bytes are rewritten at its target. Invariant after every load: raised, or index and assembly == reference of the "
         "current content; if the cache was missing or not strictly newer, both cache files were (re)written by this load. E3: 2 and 3 virtual processes (in further runs one of them crashes at any of its file operations) "
         "each doing one auto_load from pre-states {no cache, stale cache, valid cache, .fai only}; every operation on .fai/.agp is a "
         "scheduling point; states = (files, per process: points passed + hash of observations); all reachable states explored; invariant: every process "
@@ -178,6 +192,7 @@ class C15(Check):
         for b in self.bounds(tier)["e2_buffers"]:
             out.append(("e2", b))
         out.append(("e2big", 8192))
+        out.append(("e2link", 16))
         for first in range(5):
             out.append(("e2p", 5 if tier == "quick" else 7, first))
         pres = ("none", "stale", "valid", "fai-only")
@@ -201,28 +216,34 @@ class C15(Check):
         return out
 
     # ------------------------------------------------------------------ E2
-    def e2(self, bufsize, ctx, contents=("A", "B", "C"), replay_hist=None, max_states=None):
+    def e2(self, bufsize, ctx, contents=("A", "B", "C"), replay_hist=None, max_states=None, link=False):
         runner = SeqRunner(bufsize)
         keep_others = False
         while True:
             try:
-                return self._e2(runner, ctx, contents, keep_others, replay_hist, max_states)
+                return self._e2(runner, ctx, contents, keep_others, replay_hist, max_states, link)
             except _ForeignTouch:
                 if keep_others:
                     raise
                 keep_others = True
                 ctx.count("e2_restarted_with_all_files_in_state")
 
-    def _e2(self, runner, ctx, contents, keep_others, replay_hist, max_states):
+    def _e2(self, runner, ctx, contents, keep_others, replay_hist, max_states, link=False):
         v0 = VFS()
-        v0.put(FA, reference(contents[0])[0], mtime=1)
+        if link:
+            # the FASTA is reached through a symbolic link made once (mtime 1, never changes); the bytes are
+            # rewritten at the target, the cache files are written beside the link
+            v0.put(REAL, reference(contents[0])[0], mtime=1)
+            v0.symlink(FA, REAL, mtime=1)
+        else:
+            v0.put(FA, reference(contents[0])[0], mtime=1)
         init = (v0.snapshot(), 1)
         seen = {canon(*init, keep_others): ()}
         frontier = deque([(init, ())])
         ctx.states += 1
 
         def cid_of(snap):
-            data = next(d for p, d, _ in snap if p == FA)
+            data = fa_entry(snap)[0]
             return next(c for c in contents if reference(c)[0] == data)
 
         def do_load(snap, now, crash_at, hist):
@@ -235,9 +256,9 @@ class C15(Check):
         def check_load(snap, now, res, log, hist):
             cid = cid_of(snap)
             files = {p: (d, m) for p, d, m in snap}
-            fm_ = files[FA][1]
+            fm_ = fa_entry(snap)[1]
             valid_before = all(p in files and files[p][1] > fm_ for p in (FAI, AGP))
-            case = ["e2", runner.bufsize, list(contents), [list(h) for h in hist]]
+            case = ["e2link" if link else "e2", runner.bufsize, list(contents), [list(h) for h in hist]]
             ctx.cur = case
             k = judge(cid, res)
             tag = ""
@@ -271,7 +292,7 @@ class C15(Check):
                     if max_states and len(seen) > max_states:
                         ctx.extra["e2_state_cap_hit"] = max_states
                         return
-        ctx.sample({"e2_history": [list(h) for h in max(seen.values(), key=len)], "buffer": runner.bufsize})
+        ctx.sample({"e2_history": [list(h) for h in max(seen.values(), key=len)], "buffer": runner.bufsize, "fasta_is_symlink": link})
         ctx.outcome(h64(sorted(map(repr, seen))))
 
     def ops(self, snap, now, contents, runner, do_load):
@@ -280,7 +301,7 @@ class C15(Check):
         out = []
         if now <= mt:
             out.append(("tick",))
-        cur = next(d for p, d, _ in snap if p == FA)
+        cur = fa_entry(snap)[0]
         for c in contents:
             if reference(c)[0] != cur:
                 out.append(("rewrite", c))
@@ -300,7 +321,8 @@ class C15(Check):
             return snap, now + 1, True
         if op[0] == "rewrite":
             data = reference(op[1])[0]
-            snap2 = tuple(sorted([(p, d, m) for p, d, m in snap if p != FA] + [(FA, data, now)]))
+            real = fa_real(snap)
+            snap2 = tuple(sorted([(p, d, m) for p, d, m in snap if p != real] + [(real, data, now)]))
             return snap2, now, True
         if op[0] == "rm":
             tgt = FAI if op[1] == "fai" else AGP
@@ -466,6 +488,8 @@ class C15(Check):
         kind = shard[0]
         if kind == "e2":
             self.e2(shard[1], ctx)
+        elif kind == "e2link":
+            self.e2(shard[1], ctx, contents=("A", "B") if len(shard) < 3 else tuple(shard[2]), link=True)
         elif kind == "e2p":
             self.e2p(shard[1], shard[2], ctx)
         elif kind == "e2big":
@@ -479,9 +503,9 @@ class C15(Check):
     def replay(self, case, ctx):
         if case[0] == "e2p":
             self.e2p(len(case[1]), 0, ctx, replay_hist=case[1])
-        elif case[0] == "e2":
+        elif case[0] in ("e2", "e2link"):
             _, bufsize, contents, hist = case
-            self.e2(bufsize, ctx, contents=tuple(contents), replay_hist=[tuple(h) for h in hist])
+            self.e2(bufsize, ctx, contents=tuple(contents), replay_hist=[tuple(h) for h in hist], link=case[0] == "e2link")
         else:
             _, nproc, pre, bufsize, sched = case[:5]
             shared = case[5] if len(case) > 5 else None
